@@ -265,10 +265,26 @@ def join(vs):
         meths = []
         for v in vs:
             meths += v.meths or []
-    return V(k, cls, all(v.is_self for v in vs if v.k == "obj") and "obj" in ks, el,
-             anc=F().union(*[v.anc for v in vs]), deps=F().union(*[v.deps for v in vs]), deg=deg,
-             fresh=all(v.fresh for v in vs), label=all(v.label for v in vs if v.k == "E"),
-             shares=F().union(*[v.shares for v in vs]), ek=F().union(*[v.ek for v in vs]), meths=meths)
+    out = V(k, cls, all(v.is_self for v in vs if v.k == "obj") and "obj" in ks, el,
+            anc=F().union(*[v.anc for v in vs]), deps=F().union(*[v.deps for v in vs]), deg=deg,
+            fresh=all(v.fresh for v in vs), label=all(v.label for v in vs if v.k == "E"),
+            shares=F().union(*[v.shares for v in vs]), ek=F().union(*[v.ek for v in vs]), meths=meths)
+    if JOIN_KEEPS_ALTS and k == "E" and all(v.k == "E" for v in vs):
+        # "one of these values" (outcomes of a dispatch over methods / receiver classes): the alternatives stay apart,
+        # so that a parent recorded by one outcome does not hide its absence in another
+        alts = ()
+        # a parentless empty placeholder (`EmptyExplainableObject()` returned when there is nothing to compute) is not an
+        # alternative of its own: as before, it is only required that the recorded ancestors of the value as a whole
+        # cover what decided that there was nothing to compute
+        real = [v for v in vs if not (set(v.ek or ()) == {"EMPTY"} and not v.anc)] or vs
+        for v in real:
+            alts += alts_of(v)
+        alts = tuple(dict.fromkeys(alts))
+        out.alts = alts if 1 < len(alts) <= 16 else None
+    return out
+
+
+JOIN_KEEPS_ALTS = True
 
 
 MAX_ALTS = 16
@@ -1074,25 +1090,62 @@ class Interp:
                        carrier="bare")
         if n in ("max", "min"):
             return self.taintdeg(raw(alld, deg=join(args).deg if args else {}), cx)
-        if n == "reduce" and len(args) >= 2:
-            # functools.reduce(f, xs[, init]): two abstract folding steps, joined (like a loop body run twice)
-            f, xs = args[0], args[1]
+        if n in ("reduce", "accumulate") and len(args) >= (2 if n == "reduce" else 1):
+            # functools.reduce(f, xs[, init]) / itertools.accumulate(xs[, f][, initial=]): two abstract folding steps,
+            # joined (like a loop body run twice); accumulate yields every intermediate state
+            if n == "reduce":
+                f, xs, fnode = args[0], args[1], e.args[0]
+                init = args[2] if len(args) > 2 else kw.get("initial")
+            else:
+                xs = args[0]
+                f = args[1] if len(args) > 1 else kw.get("func")
+                fnode = e.args[1] if len(e.args) > 1 else next((k.value for k in e.keywords if k.arg == "func"), None)
+                init = kw.get("initial")
             el = self.elem_of(xs) if xs.k in ("list", "dict") else xs
-            acc = args[2] if len(args) > 2 else el
+            acc = init if init is not None else el
             outs = [acc]
+            OPS = {"add": ast.Add(), "iadd": ast.Add(), "mul": ast.Mult(), "imul": ast.Mult(), "sub": ast.Sub(),
+                   "truediv": ast.Div(), "concat": ast.Add()}
+            opname = None
+            if fnode is None:
+                opname = "add"
+            elif isinstance(fnode, ast.Attribute) and norm(fnode.value) == "operator" and fnode.attr in OPS:
+                opname = fnode.attr
+            elif isinstance(fnode, ast.Name) and fnode.id in OPS and fnode.id not in env:
+                opname = fnode.id
             for _ in range(2):
-                if f.k == "lambda":
+                if opname is not None:
+                    acc = self.binop(OPS[opname], acc, el, cx, e)
+                elif f is not None and f.k == "lambda":
                     acc = self.call_closure(f, [acc, el], {}, cx)
-                elif f.k == "meth" and f.meths:
+                elif f is not None and f.k == "meth" and f.meths:
                     acc = join([self.inline(cn, owner, m, is_self, [acc, el], {}, cx, e) for cn, owner, m, is_self in f.meths])
                 else:
-                    cx.unknown.append(f"reduce with a function the analyser cannot follow in {where[1]}")
+                    cx.unknown.append(f"{n} with a function the analyser cannot follow in {where[1]}")
                     return raw(alld, deg={})
                 outs.append(acc)
-            return join(outs)
-        if n in ("map", "zip", "enumerate", "filter"):
-            els = [a.elem for a in args if a.k == "list" and a.elem is not None]
-            return V("list", elem=join(els) if els else raw(alld), deps=alld)
+            return join(outs) if n == "reduce" else V("list", elem=join(outs), deps=xs.deps)
+        if n == "map" and args and args[0].k == "lambda":
+            els = [self.elem_of(a) if a.k in ("list", "dict") else a for a in args[1:]]
+            return V("list", elem=self.call_closure(args[0], els, {}, cx), deps=alld)
+        if n in ("map", "filter") and args and args[0].k == "lambda":
+            els = [self.elem_of(a) if a.k in ("list", "dict") else a for a in args[1:]]
+            t = self.call_closure(args[0], els, {}, cx)
+            return V("list", elem=add_deps(join(els), t.deps) if els else None, deps=alld)
+        if n in ("map", "zip", "enumerate", "filter", "chain", "zip_longest", "islice", "product", "starmap", "repeat",
+                 "cycle", "takewhile", "dropwhile", "pairwise", "compress"):
+            els = [a.elem for a in args if a.k in ("list", "dict") and a.elem is not None]
+            # what is paired / selected also depends on the lengths and keys of the inputs
+            return V("list", elem=add_deps(join(els), alld) if els else raw(alld), deps=alld)
+        if n == "groupby" and args:
+            xs = args[0]
+            el = self.elem_of(xs) if xs.k in ("list", "dict") else xs
+            kf = args[1] if len(args) > 1 else kw.get("key")
+            kv = self.call_closure(kf, [el], {}, cx) if (kf is not None and kf.k == "lambda") else el
+            grp = add_deps(el, kv.deps | xs.deps)
+            return V("list", elem=V("list", elem=grp), deps=xs.deps | kv.deps)
+        if n == "divmod":
+            return V("list", elem=raw(alld, deg=d_nl(join(args).deg) if args else {}, carrier="bare"), deps=alld)
         if n == "u":
             return raw(alld, deg={})
         if n == "hasattr":
@@ -1335,6 +1388,12 @@ class Interp:
                         elif a is not env.get(k) and b is not env.get(k) and a.k == "E" and b.k == "E" \
                                 and not cx.in_loop:
                             merged[k] = join_alts(a, b)      # assigned on both arms: keep the arms apart
+                        elif (a is env.get(k)) != (b is env.get(k)) and a.k == "E" and b.k == "E" and not cx.in_loop:
+                            # assigned on one arm only: the other alternative is the value from before the test, and
+                            # which of the two holds depends on the test
+                            old, new_v = (a, b) if a is env.get(k) else (b, a)
+                            tc = F((r[0], r[1], r[2], "c") for r in t.deps if len(r) == 3) | F(r for r in t.deps if len(r) == 4)
+                            merged[k] = join_alts(add_deps(old, tc), new_v)
                         else:
                             merged[k] = join([a, b])
                 env.clear()
